@@ -6,7 +6,7 @@ use crate::sem::{self, SemCase, Side};
 use serde_json::json;
 
 pub fn cfg() -> GenCfg {
-    GenCfg { opt_stress: true, asm_menu: true, ..GenCfg::default() }
+    GenCfg { opt_stress: true, asm_menu: true, inline_permille: 200, ..GenCfg::default() }
 }
 
 pub fn check(case: &SemCase, st: &mut Stats, ex: &Excl) -> Result<(), String> {
@@ -124,7 +124,7 @@ pub fn run(ctx: &mut RunCtx) -> i32 {
         stats,
         rule: "generated programs (optimizer-stress patterns and inline asm from a fixed menu weighted up), compiled at -O0 and \
                at -O1 (always) plus -O2/-O3 (10 %), co-executed from K identical random initial states; non-trivial = the \
-               optimizer removed at least one instruction and the -O0 run changes the compared state; distinct by hash of source"
+               optimizer removed at least one instruction and the -O0 run changes the compared state; distinct by hash of source."
             .into(),
         assumptions: vec!["own assembler asm6502 and emulator emu6502 are correct".into(), "-O0 output is the reference".into()],
         extra: json!({}),
